@@ -105,7 +105,7 @@ LEVEL_TEXT = {
             "arguments, blocks, moves, recycled positions) under ASan/UBSan.", '6/C01'),
     'C09': ("Machine-checked for ARBITRARY re-entrant slot bodies and nesting depth: in one emission no connection is invoked twice; during the walk no entry "
             "of the emitting Impl is erased and the Impl stays alive (no executing callable destroyed, no freed table walked); when emit returns - also by a "
-            "library exception - every requested disconnect has been executed and nothing is left emitting. Memory safety of the real code is observed "
+            "library exception - every requested disconnect has been executed and nothing is left emitting; a direct connection whose entry the bodies leave as it is (they may disconnect or block others, emit, evaluate) is invoked exactly once by an emission that returns. Memory safety of the real code is observed "
             "(ASan + a destroyed-while-running canary) on generated re-entrant histories, not proved.", '6/C09'),
     'C12': ("Machine-checked theorems on the executable model of the generational index array and of Signal::Impl/ConnectionHandle: ids are never "
             "re-issued, a stale id stays stale for ever under any history (any re-entrant slot bodies), uses through stale ids are rejected or have no "
